@@ -1,0 +1,78 @@
+// Copyright Amazon.com, Inc. or its affiliates. All Rights Reserved.
+// SPDX-License-Identifier: Apache-2.0
+
+//!
+//! Instrumentation used by external verification harnesses.
+//!
+//! This module only exists when the crate is compiled with `--cfg aws_smt_strings_verif`.
+//! It keeps a thread-local buffer of events emitted at the linearization points of
+//! private state machines (currently: the Hopcroft refinement in the minimizer).
+//! Recording is off unless a harness turns it on.
+//!
+
+use std::cell::RefCell;
+
+/// One step of a private state machine
+#[derive(Debug, Clone, PartialEq, Eq)]
+pub enum Event {
+    /// A minimizer was created: number of states, alphabet size, transition table
+    /// (`delta[s][c]`), finality of each state.
+    HopNew {
+        /// number of states
+        n: u32,
+        /// alphabet size
+        m: u32,
+        /// transition table
+        delta: Vec<Vec<u32>>,
+        /// final flags
+        finals: Vec<bool>,
+    },
+    /// Snapshot of the refinement state: the blocks of the main partition and the
+    /// active splitters (block elements, character).
+    HopState {
+        /// "init", "refined" or "done"
+        what: &'static str,
+        /// blocks of the main partition (sorted elements)
+        blocks: Vec<Vec<u32>>,
+        /// active splitters
+        active: Vec<(Vec<u32>, u32)>,
+    },
+    /// A splitter was picked: elements of its block, its character, elements of its
+    /// predecessor class.
+    HopPick {
+        /// block elements
+        block: Vec<u32>,
+        /// character
+        ch: u32,
+        /// predecessors of the block via the character
+        pred: Vec<u32>,
+    },
+}
+
+thread_local!(static BUFFER: RefCell<Option<Vec<Event>>> = const { RefCell::new(None) });
+
+/// Start (true) or stop (false) recording on this thread; the buffer is emptied.
+pub fn record(on: bool) {
+    BUFFER.with(|b| *b.borrow_mut() = if on { Some(Vec::new()) } else { None });
+}
+
+/// Take the events recorded so far on this thread.
+pub fn drain() -> Vec<Event> {
+    BUFFER.with(|b| match b.borrow_mut().as_mut() {
+        Some(v) => std::mem::take(v),
+        None => Vec::new(),
+    })
+}
+
+/// Is recording on?
+pub fn recording() -> bool {
+    BUFFER.with(|b| b.borrow().is_some())
+}
+
+pub(crate) fn emit(e: Event) {
+    BUFFER.with(|b| {
+        if let Some(v) = b.borrow_mut().as_mut() {
+            v.push(e)
+        }
+    });
+}
